@@ -7,6 +7,7 @@ mod program;
 mod rng;
 mod runner;
 mod scen;
+mod selftest;
 mod wire;
 
 use crate::core::{Scenario, Tier};
@@ -119,6 +120,10 @@ fn main() {
         Some("replay") => match pos.get(1) {
             Some(p) => runner::replay_file(&all, p, quiet),
             None => usage(),
+        },
+        Some("selftest") => match pos.get(1).map(|s| s.as_str()) {
+            Some("wrappers") => selftest::wrappers_transparent(&all, seed, pos.get(2).and_then(|s| s.parse().ok()).unwrap_or(3000)),
+            _ => usage(),
         },
         Some("gen") => {
             // print the program of one run (debugging aid)
